@@ -6,6 +6,9 @@ package main
 
 import (
 	"fmt"
+	"go/token"
+	"go/types"
+	"sort"
 	"strings"
 
 	"golang.org/x/tools/go/ssa"
@@ -228,4 +231,168 @@ func checkInitKeepsLimits(c *Check) {
 	}
 	c.Cond(bad == "", rule, "container:no-setrlimit", "-", fmt.Sprintf("no call in package container (%d call sites) sets a resource limit of the init itself", n),
 		"the container package sets a resource limit of its own process at "+bad+": every program started in the container inherits it although it was not configured")
+}
+
+func init() {
+	postHooks["C11"] = append(postHooks["C11"], checkNoCloseOfSendQueues)
+}
+
+// checkNoCloseOfSendQueues: a channel that some goroutine sends on is never closed (a send on a closed channel
+// panics: a call in flight during Destroy must return an error, not crash the host). Only signal channels nobody
+// sends on ('done') are closed.
+func checkNoCloseOfSendQueues(c *Check) {
+	p := c.P
+	rule := "9/queues-never-closed"
+	field := func(v ssa.Value) string {
+		d := describe(v)
+		if i := strings.LastIndex(d, "."); i >= 0 {
+			return d[i+1:]
+		}
+		return d
+	}
+	sentOn := map[string]string{}
+	type cl struct{ name, pos string }
+	var closes []cl
+	for _, fn := range p.PkgFuncs("container") {
+		for _, b := range fn.Blocks {
+			for _, in := range b.Instrs {
+				switch x := in.(type) {
+				case *ssa.Send:
+					sentOn[field(x.Chan)] = p.Pos(x.Pos())
+				case *ssa.Select:
+					for _, st := range x.States {
+						if st.Dir == types.SendOnly {
+							sentOn[field(st.Chan)] = p.Pos(x.Pos())
+						}
+					}
+				case *ssa.Call:
+					if bi, ok := x.Call.Value.(*ssa.Builtin); ok && bi.Name() == "close" && len(x.Call.Args) == 1 {
+						closes = append(closes, cl{field(x.Call.Args[0]), p.Pos(x.Pos())})
+					}
+				}
+			}
+		}
+	}
+	for _, k := range closes {
+		at, bad := sentOn[k.name]
+		c.Cond(!bad, rule, "container:close("+k.name+")", k.pos, "the closed channel is a signal nobody sends on",
+			"channel "+k.name+" is closed here but sent on at "+at+": a sender that is still running panics with 'send on closed channel'")
+	}
+	if len(closes) == 0 {
+		c.Undecided(rule, "container:close", "-", "no channel close found")
+	}
+	c.Expect(rule, 2)
+}
+
+func init() {
+	postHooks["C18"] = append(postHooks["C18"], checkPermissionConstants)
+	postHooks["C07"] = append(postHooks["C07"], checkErrorReplyText)
+}
+
+// checkPermissionConstants: AddFilePermission, evaluated for each named permission constant, enters the name into
+// the set of that name (write -> Writable, read -> Readable, stat -> Statable) and into no stronger one.
+func checkPermissionConstants(c *Check) {
+	p := c.P
+	rule := "8/permission-constants"
+	fn := p.Func("runner/ptrace/filehandler", "FileSets.AddFilePermission")
+	if fn == nil || len(fn.Params) < 3 {
+		c.Undecided(rule, "filehandler.FileSets.AddFilePermission", "-", "function not found")
+		return
+	}
+	nameP, modeP := fn.Params[1], fn.Params[2]
+	for _, t := range [][2]string{{"FilePermWrite", "Writable"}, {"FilePermRead", "Readable"}, {"FilePermStat", "Statable"}} {
+		val, ok := p.ConstInt(repoModule+"/runner/ptrace/filehandler", t[0])
+		if !ok {
+			c.Undecided(rule, "filehandler."+t[0], "-", "constant not found")
+			continue
+		}
+		got := map[string]bool{}
+		w := &walker{fn: fn, MaxVisits: 4, Inline: -1}
+		w.Seed = func(w *walker, st *wstate, v ssa.Value) *absVal {
+			if v == ssa.Value(modeP) {
+				return avInt(val)
+			}
+			return nil
+		}
+		w.OnInstr = func(w *walker, st *wstate, in ssa.Instruction) {
+			ci, ok := in.(ssa.CallInstruction)
+			if !ok {
+				return
+			}
+			nm, _ := calleeOf(ci)
+			if !strings.HasSuffix(nm, "FileSet).Add") || len(ci.Common().Args) < 2 || stripConv(ci.Common().Args[1]) != ssa.Value(nameP) {
+				return
+			}
+			recv := ci.Common().Args[0]
+			d := describe(recv)
+			if av := w.eval(st, recv); av.k == avPtr && (strings.Contains(av.key, "Writable") || strings.Contains(av.key, "Readable") || strings.Contains(av.key, "Statable")) {
+				d = av.key // the cell the evaluated pointer denotes (e.g. an entry of a table of sets picked by the mode)
+			}
+			// an entry of a literal table of sets picked by the (seeded, hence constant) mode
+			if ld, ok := recv.(*ssa.UnOp); ok && ld.Op == token.MUL {
+				if ia, ok := ld.X.(*ssa.IndexAddr); ok {
+					if idx, ok := w.eval(st, ia.Index).Int(); ok {
+						base := ia.X
+						if sl, ok := base.(*ssa.Slice); ok {
+							base = sl.X // a slice literal: the slice of a fresh array
+						}
+						if refs := base.Referrers(); refs != nil {
+							for _, r := range *refs {
+								if ia2, ok := r.(*ssa.IndexAddr); ok && ia2 != ia {
+									if k, ok := constInt(ia2.Index); ok && k == idx && ia2.Referrers() != nil {
+										for _, u := range *ia2.Referrers() {
+											if stv, ok := u.(*ssa.Store); ok && stv.Addr == ssa.Value(ia2) {
+												d = describe(stv.Val)
+											}
+										}
+									}
+								}
+							}
+						}
+					}
+				}
+			}
+			for _, set := range []string{"Writable", "Readable", "Statable"} {
+				if strings.Contains(d, set) {
+					got[set] = true
+				}
+			}
+			if len(got) == 0 {
+				got["?"+d] = true
+			}
+		}
+		w.Run()
+		var gl []string
+		for k := range got {
+			gl = append(gl, k)
+		}
+		sort.Strings(gl)
+		c.Cond(len(gl) == 1 && gl[0] == t[1] && !w.Truncated, rule, "filehandler.AddFilePermission:"+t[0], p.Pos(fn.Pos()), t[0]+" enters the name into "+t[1],
+			fmt.Sprintf("with mode %s (=%d) the name itself is entered into %v, want [%s]: a grant lands in the wrong set", t[0], val, gl, t[1]))
+	}
+	c.Expect(rule, 3)
+}
+
+// checkErrorReplyText: the error the host hands to the caller for a failed launch is the container's message, which
+// names the failing step; Error() returns the message field on every path.
+func checkErrorReplyText(c *Check) {
+	p := c.P
+	rule := "17/error-names-step"
+	fn := p.Func("container", "errorReply.Error")
+	if fn == nil {
+		c.Undecided(rule, "container.errorReply.Error", "-", "function not found")
+		return
+	}
+	n := 0
+	for _, b := range fn.Blocks {
+		ret, ok := b.Instrs[len(b.Instrs)-1].(*ssa.Return)
+		if !ok || len(ret.Results) != 1 {
+			continue
+		}
+		n++
+		d := describe(ret.Results[0])
+		c.Cond(strings.HasSuffix(d, ".Msg"), rule, fmt.Sprintf("container.errorReply.Error:return#%d", n), p.Pos(ret.Pos()), "returns the message (step and cause) the container sent",
+			"Error() returns "+d+" instead of the message field: the text that names the failing step is lost")
+	}
+	c.Expect(rule, 1)
 }
